@@ -126,7 +126,7 @@ def termination_obligations(tier, seed):
             env = {"kind": r.out.kind, "exc": r.out.exc_name, "site": r.out.site, "tpl": tid.split(":")[0]}
             env.update(r.vals)
             return ctx.known(PID, {"part": "termination", "tpl": tid.split(":")[0]}, env), info
-        out.append(Ob("C13:term:" + tid, body, timeout=120, tags={"part": "termination", "tpl": tid.split(":")[0]}, text=tpl.text))
+        out.append(Ob("C13:term:" + tid, body, timeout=(500 if tid.startswith("multi") else 120), tags={"part": "termination", "tpl": tid.split(":")[0]}, text=tpl.text))
     return out
 
 
